@@ -5,7 +5,9 @@
    Points are nat, distances Z (integer-valued f64; `sum / len` averages compare like the sums on this domain).
    HashMap<P, Vec<P>> = association list keyed by medoid (first-insertion order, overwrite on insert);
    the hash iteration order of `clusters.iter()` in update_medoids is the oracle `ord` (any function).
-   `medoid.expect("should be set")` is the result HPanic.
+   `medoid.expect("should be set")` is the result HPanic (unreachable since repair 8db29ea: the root cluster's only
+   point is its medoid).  k above the number of distinct points: the selection of medoids stops (repair ba4acde).
+   `*_prefix` = the functions before these two repairs (for the witness theorems only).
    Entry points for the correspondence: run_kmedoids, run_hkmedoids.  Checker: check_kmedoids.  No proofs here. *)
 From VRP Require Import Base.Tac.
 From VRP Require Import Model.Lkh.   (* only for the multiset-equality test permb *)
@@ -66,7 +68,7 @@ Section KM.
     | O => Some medoids
     | S f => if length medoids <? k then
                match next_medoid data medoids with
-               | None => None
+               | None => Some medoids                      (* `else { break }` since repair ba4acde (finding C17-F3) *)
                | Some m => more_medoids f k data (medoids ++ [m])
                end
              else Some medoids
@@ -123,6 +125,8 @@ Section KM.
     | [] => Some (tier, next)
     | (medoid, cdata) :: r =>
       if length cdata <? 2 then
+        (* since repair 8db29ea (finding C17-F2): medoid.or_else(|| cluster_data.first().cloned()) *)
+        let medoid := match medoid with Some m => Some m | None => hd_error cdata end in
         match medoid with
         | None => None                                           (* expect("should be set") *)
         | Some m => tier_step r (cm_put m cdata tier) (next ++ [(medoid, cdata)])
@@ -152,6 +156,66 @@ Section KM.
     match data with
     | [] => HOk []
     | _ => htiers max_tiers [(None, data)] []
+    end.
+
+  (* ---------------------------------------------------------------- the functions as they were BEFORE the repairs
+     ba4acde (C17-F3: initialize_medoids gave up with None when no unused point was left -> empty map) and
+     8db29ea (C17-F2: the root cluster of a single point has no medoid -> expect panics); kept only for the witness
+     theorems about the pre-fix code *)
+  Fixpoint more_medoids_prefix (fuel : nat) (k : nat) (data medoids : list nat) : option (list nat) :=
+    match fuel with
+    | O => Some medoids
+    | S f => if length medoids <? k then
+               match next_medoid data medoids with
+               | None => None
+               | Some m => more_medoids_prefix f k data (medoids ++ [m])
+               end
+             else Some medoids
+    end.
+  Definition create_kmedoids_prefix (data : list nat) (k : nat) : cmap :=
+    match data with
+    | [] => []
+    | _ => match argmin (fun a => sumd a data) data with
+           | None => []
+           | Some first => match more_medoids_prefix k k data [first] with
+                           | None => []
+                           | Some medoids => assign data (iterate 200 data medoids)
+                           end
+           end
+    end.
+  Fixpoint tier_step_prefix (cur : list (option nat * list nat)) (tier : cmap) (next : list (option nat * list nat))
+    : option (cmap * list (option nat * list nat)) :=
+    match cur with
+    | [] => Some (tier, next)
+    | (medoid, cdata) :: r =>
+      if length cdata <? 2 then
+        match medoid with
+        | None => None                                           (* expect("should be set") *)
+        | Some m => tier_step_prefix r (cm_put m cdata tier) (next ++ [(medoid, cdata)])
+        end
+      else
+        let nc := create_kmedoids_prefix cdata 2 in
+        tier_step_prefix r (fold_left (fun t kc => cm_put (fst kc) (snd kc) t) nc tier)
+                         (next ++ map (fun kc => (Some (fst kc), snd kc)) nc)
+    end.
+  Fixpoint htiers_prefix (max_tiers : nat) (cur : list (option nat * list nat)) (acc : list cmap) : hres :=
+    match max_tiers with
+    | O => HOk (rev acc)
+    | S n =>
+      match tier_step_prefix cur [] [] with
+      | None => HPanic
+      | Some (tier, next) =>
+        match tier with
+        | [] => HOk (rev acc)
+        | _ => if existsb (fun kc => 2 <? length (snd kc)) tier
+               then htiers_prefix n next (tier :: acc) else HOk (rev acc)
+        end
+      end
+    end.
+  Definition create_hierarchical_kmedoids_prefix (data : list nat) (max_tiers : nat) : hres :=
+    match data with
+    | [] => HOk []
+    | _ => htiers_prefix max_tiers [(None, data)] []
     end.
 
   (* an assignment tie between two medoids makes the output depend on the hash order *)
